@@ -31,7 +31,7 @@ OK_ABITSET = {"add_atomic", "contains", "iter", "is_empty", "layer0", "layer1", 
 
 
 def configs(tier):
-    return ["A"] if tier == "quick" else ["A", "F", "N", "FN"]
+    return ["A", "N"] if tier == "quick" else ["A", "F", "N", "FN"]   # N: three independent seeds (C01-g2, C10-g2, C17-g2) hid a defect in a cfg(not(parallel)) twin
 
 
 def run(ctx):
